@@ -114,6 +114,13 @@ func checkC04(c *hx.Checker) {
 		{{257, 3}, {3, 259}}, {{4099}, {4099}}, {{1, 4099}, {4099, 3}}, {{7, 67, 5}, {5, 71}}, {{131, 129}, {129, 131}}} {
 		mm(ref.F32, sp[0], sp[1], "op", nil)
 	}
+	// every row / column / inner count 1..72 against a 64-wide partner: size thresholds of blocked or parallel kernels
+	// combined with every remainder when rows are divided into blocks
+	for v := 1; v <= 72; v++ {
+		mm(ref.F32, []int{v, 64}, []int{64, 48}, "op", nil)
+		mm(ref.F32, []int{48, 64}, []int{64, v}, "op", nil)
+		mm(ref.F32, []int{48, v}, []int{v, 64}, "op", nil)
+	}
 	// three and four stack dimensions (operands of rank 5 and 6), outermost / innermost stack extents > 1, also
 	// against lower-rank and broadcast partners
 	for _, sp := range [][2][]int{{{2, 1, 2, 2, 3}, {2, 1, 2, 3, 2}}, {{2, 3, 2, 2, 3}, {2, 3, 2, 3, 2}}, {{3, 1, 2, 1, 2}, {3, 1, 2, 2, 3}}, {{2, 2, 2, 2, 3}, {3, 2}},
@@ -271,8 +278,15 @@ func checkC04(c *hx.Checker) {
 			}
 		}
 	}
-	for _, big := range [][3]int{{70, 65, 66}, {128, 64, 3}, {5, 300, 7}} {
+	bigs := [][3]int{{70, 65, 66}, {128, 64, 3}, {5, 300, 7}}
+	for v := 1; v <= 72; v++ { // every row count (see MatMul above)
+		bigs = append(bigs, [3]int{v, 64, 48})
+	}
+	for _, big := range bigs {
 		for _, tA := range []bool{false, true} {
+			if tA && big[1] == 64 && big[2] == 48 && big[0]%7 != 0 {
+				continue
+			}
 			ash, bsh := []int{big[0], big[1]}, []int{big[2], big[1]}
 			if tA {
 				ash = []int{big[1], big[0]}
@@ -326,6 +340,42 @@ func checkC04(c *hx.Checker) {
 				}
 			}
 		}
+	}
+	// alpha*(A*B) and beta*C each fit, their unscaled sum A*B + C does not (an implementation that factors a common
+	// alpha = beta out of the sum overflows): alpha = beta in {0.5, 0.25, -0.5}, every bias shape
+	for _, ab := range []float32{0.5, 0.25, -0.5} {
+		for _, K := range []int{1, 2} {
+			for _, csh := range [][]int{{1}, {2}, {1, 2}, {3, 1}, {3, 2}} {
+				for _, sign := range []float64{1, -1} {
+					A := ref.Fill(ref.F32, []int{3, K}, func(i int) float64 { return sign * (1.5e19 + float64(i)*1e17) / float64(K) })
+					B := ref.Fill(ref.F32, []int{K, 2}, func(i int) float64 { return 1.4e19 + float64(i)*1e17 })
+					C := ref.Fill(ref.F32, csh, func(i int) float64 { return sign * (2.4e38 + float64(i)*1e36) })
+					exp, err := ref.Gemm(A, B, C, ab, ab, false, false)
+					jobs = append(jobs, newJob("Gemm", []hx.Attr{hx.AFloat("alpha", ab), hx.AFloat("beta", ab)}, []*ref.T{A, B, C}, []*ref.T{exp}, err, hx.DCompute, hx.Dot, "op", nil,
+						fmt.Sprintf("sum-overflows-unscaled alpha=beta=%v K=%d C%v sign=%v", ab, K, csh, sign), "extreme-scale", "unscaled-sum-overflows"))
+				}
+			}
+		}
+	}
+	// integer MatMul (honoured exactly, in wrapping integer arithmetic as numpy does, or refused): elements and partial
+	// products beyond 2^53, operands near 2^31 whose large partial products cancel to a small result
+	for _, ic := range []struct {
+		dt   ref.DT
+		a, b []int64
+		k    int
+	}{
+		{ref.I64, []int64{1<<53 + 1, 3, 5, 1<<60 + 7}, []int64{1, 0, 0, 1}, 2},
+		{ref.I64, []int64{3037000499, 3037000500}, []int64{3037000499, -3037000498}, 2},
+		{ref.U64, []int64{1<<53 + 1, 1, 1, 1<<62 + 3}, []int64{1, 2, 3, 1}, 2},
+		{ref.I32, []int64{2147483647, 2147483647}, []int64{2147483647, -2147483646}, 2},
+		{ref.I32, []int64{46341, 46341, -46340, 46340}, []int64{46341, 46340, 46340, 46341}, 2},
+		{ref.U32, []int64{4294967295, 4294967295}, []int64{4294967295, 1}, 2},
+	} {
+		m := len(ic.a) / ic.k
+		n := len(ic.b) / ic.k
+		A, B := ref.FromI(ic.dt, []int{m, ic.k}, ic.a...), ref.FromI(ic.dt, []int{ic.k, n}, ic.b...)
+		exp, err := ref.MatMul(A, B)
+		jobs = append(jobs, newJob("MatMul", nil, []*ref.T{A, B}, []*ref.T{exp}, err, hx.DRefuse, hx.Bits, "op", nil, fmt.Sprintf("integer-extremes %s %v x %v", ic.dt, ic.a, ic.b), "integer-extremes"))
 	}
 	c.Extra["discrimination"] = map[string]int{"gemm_cases": gemmCases, "differs_if_trans_flags_flipped": discTrans, "differs_if_alpha_beta_swapped": discAB}
 	if discTrans < gemmCases/4 || discAB < gemmCases/4 {
